@@ -49,12 +49,14 @@ def demo_files(d):
     return sorted(glob.glob(os.path.join(d, "*_test.go")))
 
 
+def file_pkg(f):
+    m = re.search(r"^package (\w+)", open(f).read(), re.M)
+    return PKGDIR.get(m.group(1).replace("_test", ""), ".") if m else "."
+
+
 def demo_pkg(d):
-    for f in demo_files(d):
-        m = re.search(r"^package (\w+)", open(f).read(), re.M)
-        if m:
-            return PKGDIR.get(m.group(1).replace("_test", ""), ".")
-    return "."
+    """space-separated list of package dirs that hold demo files"""
+    return " ".join(sorted({"./" + file_pkg(f) for f in demo_files(d)}))
 
 
 def cmd_import(out, prop, n):
@@ -91,11 +93,11 @@ def cmd_verify(args):
             res = {}
             # clean tree + demo
             for f in demo_files(d):
-                shutil.copy(f, os.path.join(wt, pkg))
-            r = sh(f"go test {race}-vet=off -count=1 -run {tests} ./{pkg}", wt)
+                shutil.copy(f, os.path.join(wt, file_pkg(f)))
+            r = sh(f"go test {race}-vet=off -count=1 -run {tests} {pkg}", wt)
             res["demo_on_clean_tree"] = "pass" if r.returncode == 0 else "FAIL: " + (r.stdout + r.stderr)[-400:]
             for f in demo_files(d):
-                os.remove(os.path.join(wt, pkg, os.path.basename(f)))
+                os.remove(os.path.join(wt, file_pkg(f), os.path.basename(f)))
             # patched tree
             r = sh(f"git apply {os.path.join(d, 'patch.diff')}", wt)
             res["patch_applies"] = r.returncode == 0
@@ -104,10 +106,10 @@ def cmd_verify(args):
             if r.returncode != 0:
                 res["suite_output"] = (r.stdout + r.stderr)[-600:]
             for f in demo_files(d):
-                shutil.copy(f, os.path.join(wt, pkg))
-            r = sh(f"go test {race}-vet=off -count=1 -run {tests} ./{pkg}", wt)
+                shutil.copy(f, os.path.join(wt, file_pkg(f)))
+            r = sh(f"go test {race}-vet=off -count=1 -run {tests} {pkg}", wt)
             res["demo_with_patch"] = "fail (as intended)" if r.returncode != 0 else "PASSES (demo does not show the breakage)"
-            res["demo_command"] = f"go test {race}-vet=off -count=1 -run {tests} ./{pkg}"
+            res["demo_command"] = f"go test {race}-vet=off -count=1 -run {tests} {pkg}"
             res["verified_at"] = time.strftime("%Y-%m-%d %H:%M:%S")
             ok = res["demo_on_clean_tree"] == "pass" and res["patch_applies"] and res["builds_and_suite_passes_with_patch"] and res["demo_with_patch"].startswith("fail")
             res["confirmed"] = ok
